@@ -138,7 +138,8 @@ def one_case(args):
                ("shelve", {}, [["shelve", a] for a in probes]),
                ("expires", {"expires": 1000}, [["call", a] for a in probes]),
                # the same with the messages of a verbose Memory on (they are built from the stored metadata)
-               ("shelve_verbose", {"verbose": 11}, [["shelve", a] for a in probes])]
+               ("shelve_verbose", {"verbose": 11}, [["shelve", a] for a in probes]),
+               ("custom_callback", {"callback": "duration"}, [["call", a] for a in probes])]
     if target[1].get("compress"):
         readers = [(n, dict(o, compress=True), ops) for n, o, ops in readers]
     for rname, ropts, rops in readers:
